@@ -33,13 +33,15 @@ ManySubs == "A:A:A:A:A:A:A:A:A"          \* 9 components, 17 characters (no ISA 
 IsaW == <<2, 10, 2, 10, 2, 15, 2, 15, 6, 4, 1, 5, 9, 1, 1, 1>>
 
 AllOps == {"del", "dup", "swap", "trunc", "truncmid", "retag", "orphan", "num", "longseg", "longele",
-           "subs", "blank", "drop", "lead", "trail", "empty"}
+           "subs", "blank", "drop", "lead", "trail", "empty", "cutsub"}
 EnvIds == {"ISA", "GS", "ST", "SE", "GE", "IEA"}
 NumFields == {<<"ISA", 13>>, <<"GS", 6>>, <<"ST", 2>>, <<"SE", 1>>, <<"SE", 2>>, <<"GE", 1>>, <<"GE", 2>>,
               <<"IEA", 1>>, <<"IEA", 2>>, <<"HL", 1>>, <<"HL", 2>>, <<"HL", 4>>, <<"LX", 1>>}
 HdrFields == {<<"ISA", 11>>, <<"ISA", 12>>, <<"ISA", 15>>, <<"ISA", 16>>, <<"GS", 1>>, <<"GS", 6>>, <<"GS", 8>>,
               <<"ST", 1>>, <<"ST", 2>>, <<"ST", 3>>, <<"BHT", 1>>, <<"BHT", 2>>, <<"BHT", 6>>}
 
+HasColon(e) == \E k \in 2..Len(e) : SubSeq(e, k, k) = ":"            \* the skeletons are written with ":" as component separator
+LastColon(e) == MaxOf({k \in 2..Len(e) : SubSeq(e, k, k) = ":"})
 M(op, i, j, v) == [op |-> op, i |-> i, j |-> j, v |-> v]
 Synth(id, els) == [src |-> 0, id |-> id, els |-> els, pre |-> "", term |-> TRUE, nl |-> TRUE]
 (* an orphan trailer is a copy of the skeleton's own trailer of that kind *)
@@ -79,6 +81,7 @@ Mutations(d) ==
  \cup On("lead", {M("lead", i, 0, "") : i \in P})
  \cup On("trail", {M("trail", i, 0, "") : i \in P})
  \cup On("empty", {M("empty", i, 0, "") : i \in 1..(n + 1 - open)})
+ \cup On("cutsub", UNION {{M("cutsub", i, j, v) : j \in {k \in 1..Len(d[i].els) : HasColon(d[i].els[k])}, v \in {"gone", "empty"}} : i \in P})
 
 Apply(d, m) ==
   LET i == m.i
@@ -100,6 +103,8 @@ Apply(d, m) ==
        [] m.op = "lead" -> [d EXCEPT ![i].pre = " "]
        [] m.op = "trail" -> [d EXCEPT ![i].els = Append(@, "")]
        [] m.op = "empty" -> Ins(d, i, Synth("", <<>>))
+       [] m.op = "cutsub" ->        \* a composite loses its last component ("A:B:C" -> "A:B"), or keeps it empty ("A:B:")
+            [d EXCEPT ![i] = SetEl(@, j, SubSeq(d[i].els[j], 1, LastColon(d[i].els[j]) - (IF m.v = "gone" THEN 1 ELSE 0)))]
 
 Init == doc = Skel /\ muts = <<>>
 Next == /\ Len(muts) < MaxMut /\ Len(doc) > 0
@@ -127,7 +132,7 @@ SkeletonConformant == (muts = <<>>) => (DocClass(doc) = "interchange" /\ ~LaterB
 TermOnlyLast == \A i \in 1..(Len(doc) - 1) : doc[i].term
 (* a mutation that does not touch the ISA/GS/BHT segments does not change the class *)
 ClassStable ==
-  (Len(muts) = 1 /\ muts[1].op \in {"num", "longseg", "longele", "subs", "lead", "trail"}
+  (Len(muts) = 1 /\ muts[1].op \in {"num", "longseg", "longele", "subs", "lead", "trail", "cutsub"}
      /\ doc[muts[1].i].id \notin {"ISA", "GS", "BHT"}) => DocClass(doc) = "interchange"
 DefSane == DefinitionSane
 
